@@ -18,7 +18,7 @@ func init() {
 	run.Register(&run.Check{
 		ID:    "C15",
 		Level: "exploration",
-		Rule: "cases: histories of up to 40 InsertObject / DeleteObject / SetResources calls on one PolicyEngine - empty at first and filled one by one or through the bulk setter, or created by NewPolicyEngineWithObjects from the initial objects - (pods with controller owners - several per owner - and workload objects (Deployment, StatefulSet) relabelled, re-ported, added, deleted, re-inserted with another replica count; namespaces inserted, relabelled, deleted; NetworkPolicies inserted, deleted, deleted+reinserted changed; ANPs inserted in non-priority order and deleted through the inserted or an equal fresh object; the BANP inserted, deleted, replaced; deletes of never-inserted objects of every kind; ClearResources followed by the return of the namespaces and pods with only some of the policies; a SetResources call that fails half-way, judged against both readings of what a failed batch leaves behind; an AdminNetworkPolicy whose insert is rejected - priority in use or outside 0..1000 -, a valid one inserted while it may still be held, then the rejected one deleted: if the valid insert returned an error all answers must be those of a fresh engine with it or all those of one without it; case 0 is the committed witness history of finding C15-rejected-anp-insert), with a fixed query set (pod pairs x boundary ports x TCP/UDP) asked after every step; " +
+		Rule: "cases: histories of up to 40 InsertObject / DeleteObject / SetResources calls on one PolicyEngine - empty at first and filled one by one or through the bulk setter, or created by NewPolicyEngineWithObjects from the initial objects - (pods with controller owners - several per owner - and workload objects (Deployment, StatefulSet) relabelled, re-ported, added, deleted, re-inserted with another replica count, re-inserted unchanged (a status update) and then deleted and re-created with other ports; namespaces inserted, relabelled, deleted; NetworkPolicies inserted, deleted, deleted+reinserted changed; ANPs inserted in non-priority order and deleted through the inserted or an equal fresh object; the BANP inserted, deleted, replaced; deletes of never-inserted objects of every kind; ClearResources followed by the return of the namespaces and pods with only some of the policies; a SetResources call that fails half-way, judged against both readings of what a failed batch leaves behind; an AdminNetworkPolicy whose insert is rejected - priority in use or outside 0..1000 -, a valid one inserted while it may still be held, then the rejected one deleted: if the valid insert returned an error all answers must be those of a fresh engine with it or all those of one without it; case 0 is the committed witness history of finding C15-rejected-anp-insert), with a fixed query set (pod pairs x boundary ports x TCP/UDP) asked after every step; " +
 			"oracle: the history engine's answer must equal the answer of a fresh engine built with NewPolicyEngineWithObjects from the objects current at that moment (the reference model is consulted too: where the comparison engine and the model disagree, an engine built for that single question arbitrates - the comparison engine answers many questions and may be misled by its own memory -, and if that one disagrees with the model too the query is not judged here); the engine's own cache-hit counter, read around every query, says which answers came out of the cache; " +
 			"non-trivial = at least one answer changed over the history (how many answers came out of the cache after an update is reported, not demanded: an engine that remembers less is just as right); distinct = hash of the operation sequence",
 		Assumptions:       []string{"current objects = the objects of the successful calls so far (model state kept by the harness)", "a NetworkPolicy is updated by delete + insert (InsertObject rejects an existing name)"},
@@ -353,7 +353,7 @@ func runC15(c *run.Ctx) {
 	for step := 0; step < steps && len(r.Violations) == 0; step++ {
 		r.Ev("steps", 1)
 		op := rng.Pick(g, []string{"podPending", "podRelabel", "podDelete", "podAdd", "podPorts", "podRecreate", "nsRelabel", "nsRelabel", "nsDelete", "npInsert", "npDelete", "npReplace",
-			"anpInsert", "anpInsert", "anpDelete", "banpInsert", "banpDelete", "banpReplace", "deleteAbsent", "deleteAbsent", "requery", "bulkSet", "clearRepopulate", "failingBulkSet", "anpRejectedInsert", "anpRejectedInsert", "wlRescale", "wlRescale"})
+			"anpInsert", "anpInsert", "anpDelete", "banpInsert", "banpDelete", "banpReplace", "deleteAbsent", "deleteAbsent", "requery", "bulkSet", "clearRepopulate", "failingBulkSet", "anpRejectedInsert", "anpRejectedInsert", "wlRescale", "wlRescale", "podTouch", "podTouch"})
 		done := false
 		switch op {
 		case "podRelabel":
@@ -434,6 +434,25 @@ func runC15(c *run.Ctx) {
 					wl.Ports = world.GenCPorts(g, cfg)
 				}
 				st.insertWorkload(wl)
+				done = true
+			}
+		case "podTouch":
+			// the pods (or the workload object) are inserted once more exactly as the engine holds them - what a watch delivers on a
+			// status update; nothing an answer depends on changed. Most of the time the owner is then queried, all its pods go away and
+			// it comes back under the same name and labels with other ports: bookkeeping the repeated insert left behind must not keep
+			// answers about the previous pods alive
+			if len(st.w.Workloads) > 0 {
+				wl := &st.w.Workloads[g.Intn(len(st.w.Workloads))]
+				st.insertWorkload(wl)
+				if g.P(0.3) {
+					st.insertWorkload(wl)
+				}
+				if g.P(0.7) {
+					check(true)
+					st.deleteWorkload(wl)
+					wl.Ports = world.GenCPorts(g, cfg)
+					st.insertWorkload(wl)
+				}
 				done = true
 			}
 		case "podRecreate": // all pods of an owner go away, then the owner comes back with the same name and labels but other ports
